@@ -622,6 +622,22 @@ cleanup:
       continue;
     }
 
+    /* The server the query was to be re-sent to may have disappeared too: a
+     * callback run for a later answer of this batch may have changed the
+     * server list.  Compare pointers only, it may already be freed. */
+    if (entry.server != NULL) {
+      ares_slist_node_t *snode;
+      for (snode = ares_slist_node_first(channel->servers); snode != NULL;
+           snode = ares_slist_node_next(snode)) {
+        if (ares_slist_node_val(snode) == entry.server) {
+          break;
+        }
+      }
+      if (snode == NULL) {
+        entry.server = NULL;
+      }
+    }
+
     internal_status = ares_send_query(entry.server, query, now);
     /* We only care about ARES_ENOMEM */
     if (internal_status == ARES_ENOMEM) {
